@@ -245,8 +245,29 @@ def file_cases(rng, n):
     out = []
     seeds = ['{"a": 1}', '{"a": {"$merge": "b"}, "b": {"c": [1,2]}}', 'a = 1\n[b]\nc = "x"\n', 'a: 1\nb: [1, 2]\n', '[1, {"$output": true}]',
              '{"$repeat": 3, "a": "$repeat"}', 'a: &x [*x]\n', '&m {k: *m}\n', 'a: &m {<<: *m, b: 1}\nc: *m\n', '{"a": "$\\"{a}\\""}', 'a: &x {b: 1}\nc: *x\n', 'a: !!binary aGk=\n', '---\n---\n', 'null', '"s"', '1e400']
+    FAILING = [{"b": "$required"}, {"a": "$\"{a}\""}, {"x": {"$encode": "nosuch", "$value": 1}}, {"x": {"$merge": "nosuch"}}, {"e": "$env:BKL_UNSET_VAR"},
+               {"a": "$\"{b}\"", "b": "$\"{a}\""}, {"x": {"$decode": "json", "$value": "{"}}, {"l": [{"$repeat": "x"}]}, {"$output": 5, "k": 1},
+               {"x": {"$merge": "x"}}]
     for _ in range(n):
         r = rng.random()
+        if r < 0.12:
+            # a stream whose EARLIER documents evaluate fine and a LATER one fails in the output phase: all or nothing
+            k = rng.randint(2, 4)
+            docs = [{"ok%d" % i: rng.choice([1, "v", [1, 2], {"n": i}])} for i in range(k)]
+            bad_at = rng.randrange(1, k) if rng.random() < 0.85 else 0
+            docs[bad_at] = dict(rng.choice(FAILING), **({"tag": bad_at} if rng.random() < 0.5 else {}))
+            if rng.random() < 0.2:
+                docs[rng.randrange(k)]["rep"] = {"$repeat": 2, "i": "$repeat"}
+            ext = rng.choice(["yaml", "json", "toml", "yaml"])
+            if ext == "toml" and not all(formats.toml_ok(d) for d in docs):
+                ext = "yaml"
+            args = ["f." + ext]
+            if rng.random() < 0.4:
+                args = ["-f", rng.choice(["json", "yaml", "toml", "json-pretty", "jsonl"])] + args
+            if rng.random() < 0.25:
+                args = ["-o", "out." + rng.choice(["json", "yaml", "toml"])] + args
+            out.append({"kind": "stream-late-failure", "files": {"f." + ext: formats.dump(ext, docs)}, "tool": "bkl", "args": args})
+            continue
         if r < 0.7:
             s = rng.choice(seeds)
             b = bytearray(s.encode())
@@ -283,7 +304,13 @@ def run_file_case(c):
     with Workdir() as d:
         write_files(d, c["files"])
         r = run_cli(c["tool"], c["args"], d, timeout=20)
-        return {"rc": r["rc"], "out": r["out"][:300], "err": r["err"][:400], "shape": bad_shape(r)}
+        shape = bad_shape(r)
+        if not shape and r["rc"] not in (0, None) and "-o" in c["args"]:
+            # a failed run leaves nothing in the file it was asked to write
+            op = os.path.join(d, c["args"][c["args"].index("-o") + 1])
+            if os.path.exists(op) and os.path.getsize(op) > 0:
+                shape = "non-zero exit with partial output left in the -o file"
+        return {"rc": r["rc"], "out": r["out"][:300], "err": r["err"][:400], "shape": shape}
 
 
 def run(rep):
